@@ -89,6 +89,9 @@ def convertG (conv : Str → Str → Rat → R Rat) (ty : Ty) (u0 uk : Option St
             .ok (.scalar (.num q'))
         | .scalar _ => .error .fail
         | .array sh el => do
+            -- the dimension test of `Quantity(...).value(unit)` does not depend on the elements:
+            -- an empty array in a unit of another dimension is refused as well
+            let _ ← conv b a 0
             let el' ← mapAtoms (conv b a) el
             .ok (.array sh el')
     | none, some _ => .error .fail       -- "defined without units and cannot be assigned a value with units"
